@@ -979,18 +979,25 @@ func vspecCWM(src []byte) int { return vspecCW(src) + 2 + vspecBE16(src, vspecCW
 
 //@ func NewPubackMessage
 //@   ensures vdefFreshMsg(result, PUBACK)
+//@   modifies fields(result)
 //@ func NewPubrecMessage
 //@   ensures vdefFreshMsg(result, PUBREC)
+//@   modifies fields(result)
 //@ func NewPubrelMessage
 //@   ensures vdefFreshMsg(result, PUBREL)
+//@   modifies fields(result)
 //@ func NewPubcompMessage
 //@   ensures vdefFreshMsg(result, PUBCOMP)
+//@   modifies fields(result)
 //@ func NewSubackMessage
 //@   ensures vdefFreshMsg(result, SUBACK) && len(result.returnCodes) == 0
+//@   modifies fields(result)
 //@ func NewUnsubackMessage
 //@   ensures vdefFreshMsg(result, UNSUBACK)
+//@   modifies fields(result)
 //@ func NewPingrespMessage
 //@   ensures vdefFreshMsg(result, PINGRESP)
+//@   modifies fields(result)
 
 // ---------------------------------------------------------------- interface-level contracts of message.Message
 //
